@@ -5,6 +5,7 @@ import (
 	"strings"
 
 	execution "github.com/furiko-io/furiko/apis/execution/v1alpha1"
+	"github.com/furiko-io/furiko/pkg/execution/controllers/croncontroller"
 
 	"verifharness/sim"
 )
@@ -115,6 +116,9 @@ func runSystemScenarios(c *Ctx) {
 		[]sysStim{{Kind: "createJC", JC: 0}, {Kind: "advance", D: 20, Tick: true, Chaos: 3}, {Kind: "podStart", Name: "alpha-" + fmt.Sprint(sim.VirtualBase.Unix()+620) + "-gezdqo-0"},
 			{Kind: "advance", D: 20, Tick: true, Chaos: 3}}),
 		append(all("create:jobs", 1), nth("update:jobs:status", 1, "err", 3)))
+	runF34Scenario(c, "f34-webhook-cache-lag-drops-schedule", false)
+	runF34Scenario(c, "f34-webhook-stale-uid-drops-schedule", true)
+	runF33SystemScenario(c)
 	// F-C20-1 (repaired; regression replay): a task that was created but not recorded (the status
 	// update after the pod create failed) was leaked when the Job was deleted before the retry: for
 	// a Job with a deletion timestamp syncJobTasks is skipped, and the finalizer swept only the
@@ -156,6 +160,172 @@ func runSystemScenarios(c *Ctx) {
 				c.Violate("C20", "orphaned-task-after-delete", "Job indep-1 is gone (finalizer removed) but its task %s, created before the failed status update, still exists and is not being deleted || trace: %s",
 					p.Name, strings.Join(tail(w.trace, 30), " ; "))
 			}
+		}
+	})
+}
+
+// sysFlush delivers every pending watch event to the controllers' caches and runs every handler
+// notification; no controller is stepped.
+func sysFlush(w *sysWorld) {
+	for _, res := range []string{"jobconfigs", "jobs", "pods"} {
+		for w.deliverOne(res) {
+		}
+	}
+	for _, h := range sysHandlers {
+		for w.notifyOne(h.res, h.h) {
+		}
+	}
+}
+
+// KNOWN FINDING F34 (environment audit G3, probes/simaudit TestCronScheduleDroppedWhenWebhookCacheLags).
+// The admission webhooks are another process with their own JobConfig informer.  When the
+// mutating webhook does not find the owner JobConfig of a Job in ITS cache (the JobConfig was
+// created a moment ago), or finds an object with another UID (deleted and re-created under the
+// same name: recreate = true), it answers 422 Invalid; croncontroller's CreateJob treats every
+// Invalid as final (event, return nil), the key is forgotten, and that schedule time never gets its
+// Job although the same create would have been admitted as soon as the webhook's cache caught up.
+// Judged like every other disturbance of C20: the quiescent outcome must equal the outcome of the
+// run in which the webhook's cache did not lag (converges-same-outcome).
+func runF34Scenario(c *Ctx, name string, recreate bool) {
+	c.RunScenario(name, func() {
+		wl := sysScenarioWorkload([]sysJCSpec{sysJC("alpha", execution.ConcurrencyPolicyAllow, 0, "0/20 * * * * * *")}, nil)
+		run := func(lag bool) (*sysWorld, []string) {
+			label := "scenario " + name + " (reference: the webhook's cache keeps up)"
+			if lag {
+				label = "scenario " + name + " (the webhook's JobConfig cache lags)"
+			}
+			w := newSysWorld(c, wl, label, &sysFaultPlan{}, lag)
+			w.hookFree = true
+			var canon []string
+			bar := func() { w.barrier(); canon = append(canon, w.canon()) }
+			bar()
+			if recreate {
+				w.apply(sysStim{Kind: "createJC", JC: 0})
+				bar() // the webhook has seen the first incarnation
+				w.hookHold = lag
+				w.tr("user deletes and re-creates JobConfig alpha")
+				w.userErr("deleteJC", w.api.Delete("jobconfigs", "ns/alpha", false, false))
+				w.apply(sysStim{Kind: "createJC", JC: 0})
+			} else {
+				w.hookHold = lag // the webhook's watch is behind from here on
+				w.apply(sysStim{Kind: "createJC", JC: 0})
+			}
+			bar()                                                // the controllers are quiescent: the cron worker has scheduled alpha
+			w.apply(sysStim{Kind: "advance", D: 20, Tick: true}) // the first schedule time fires
+			for w.step(w.byName["cron"]) {                       // the create is judged by the webhook process
+			}
+			w.hookHold = false // the webhook's cache catches up (a retry 5 ms later would be admitted)
+			bar()
+			return w, canon
+		}
+		_, ref := run(false)
+		w, got := run(true)
+		c.Nontrivial()
+		if sysDebug {
+			fmt.Println(strings.Join(w.trace, "\n"))
+		}
+		if w.hookLagRefusals == 0 {
+			c.Violate("C20", "scenario-fault-reached", "%s: the lagging webhook never refused a create", w.label)
+		}
+		c.Count(fmt.Sprintf("sys.f34.refused-by-lagging-webhook.%d", w.hookLagRefusals))
+		for i := range ref {
+			if i < len(got) && ref[i] != got[i] {
+				c.Violate("C20", "converges-same-outcome", "%s: at barrier %d the quiescent state differs from the run in which the webhook's cache kept up, although every call succeeds again and every cache has caught up: %s || trace: %s",
+					w.label, i, canonDiff(ref[i], got[i]), strings.Join(tail(w.trace, 40), " ; "))
+				return
+			}
+		}
+	})
+}
+
+// restartCron rebuilds the cron controller's in-memory schedule the way a process restart does:
+// a new CronWorker is initialised from the JobConfig lister (status.lastScheduled is what the
+// catch-up reads) and the informer's add notifications for the existing JobConfigs are handled
+// right after Init (the production order, F24).  Meant for QUIESCENT points only: there every
+// other piece of controller memory (work queues empty, active-job counter = cache) is already
+// what a fresh process would rebuild.
+func (w *sysWorld) restartCron() {
+	w.tr("cron controller restarts")
+	w.cronWorker = croncontroller.NewCronWorker(w.cronCtx, &sysEnqueue{q: w.byName["cron"].q})
+	_ = w.cronWorker.Init()
+	inf := w.ctx.Sim().JobConfigs()
+	inf.ReplayExisting(1) // handler 1 = the cron controller's (sysHandlers)
+	for inf.NotifyNext(1) {
+		w.c.Count("sys.restart.initial-add")
+	}
+	w.replayQueueLogs()
+	w.c.Count("sys.act.restart-cron")
+	w.afterAction()
+}
+
+// KNOWN FINDING F33, composed system (the jcstatus engine holds the minimal replay): the JobConfig
+// controller derives status.lastScheduled only from the Jobs that are in its Job cache at the
+// moment of a sync.  The Job of schedule time T2 is created by the cron controller and deleted by
+// the user (no task yet: the job controller drops the finalizer at once) while the JobConfig
+// controller's worker has not got to the key; when it does, the Job is gone from the cache and
+// status.lastScheduled stays at T1 < T2 for ever.  A later restart of the cron controller reads
+// T1 and requests T2 AGAIN: the deleted Job is created, and runs, a second time.
+func runF33SystemScenario(c *Ctx) {
+	const name = "f33-job-never-observed-rerequested-after-restart"
+	c.RunScenario(name, func() {
+		wl := sysScenarioWorkload([]sysJCSpec{sysJC("alpha", execution.ConcurrencyPolicyAllow, 0, "0/20 * * * * * *")}, nil)
+		w := newSysWorld(c, wl, "scenario "+name, &sysFaultPlan{}, true)
+		t1, t2 := wl.t0+20, wl.t0+40
+		j2 := fmt.Sprintf("alpha-%d", t2)
+		lastScheduled := func() int64 {
+			if o := w.api.Get("jobconfigs", "ns/alpha"); o != nil {
+				if ls := o.(*execution.JobConfig).Status.LastScheduled; ls != nil {
+					return ls.Unix()
+				}
+			}
+			return 0
+		}
+		w.barrier()
+		w.apply(sysStim{Kind: "createJC", JC: 0})
+		w.barrier()
+		w.apply(sysStim{Kind: "advance", D: 20, Tick: true})
+		w.barrier() // the Job of T1 exists and is counted
+		if lastScheduled() != t1 {
+			c.Violate("C15", "scenario-precondition", "%s: lastScheduled=%d after the Job of T1=%d was observed", w.label, lastScheduled(), t1)
+			return
+		}
+		w.apply(sysStim{Kind: "advance", D: 20, Tick: true})
+		for w.step(w.byName["cron"]) { // creates the Job of T2
+		}
+		existed := w.job(j2) != nil && w.job(j2).Annotations["execution.furiko.io/schedule-time"] == fmt.Sprint(t2)
+		sysFlush(w) // every handler has seen the new Job; the JobConfig controller's key is queued, its worker is busy
+		w.apply(sysStim{Kind: "delete", Name: j2})
+		for i := 0; i < 6 && w.job(j2) != nil; i++ { // the job controller drops the finalizer (nothing to clean up)
+			sysFlush(w)
+			for w.step(w.byName["job"]) {
+			}
+		}
+		gone := w.job(j2) == nil
+		sysFlush(w)
+		w.barrier() // now the JobConfig controller syncs: the Job of T2 is not in its cache any more
+		c.Nontrivial()
+		if !existed || !gone {
+			c.Violate("C15", "scenario-precondition", "%s: the Job of T2 existed=%v, gone=%v", w.label, existed, gone)
+			return
+		}
+		ls := lastScheduled()
+		// a restart of the cron controller five seconds later (nothing new is due before T2+20)
+		w.apply(sysStim{Kind: "advance", D: 5})
+		w.restartCron()
+		w.tick()
+		for w.step(w.byName["cron"]) {
+		}
+		again := w.job(j2) != nil
+		w.barrier()
+		if again {
+			c.Count("sys.f33.deleted-job-created-again-after-restart")
+		}
+		if sysDebug {
+			fmt.Println(strings.Join(w.trace, "\n"))
+		}
+		if ls < t2 {
+			c.Violate("C15", "lastScheduled-ge-any-job", "%s: JobConfig alpha had a Job with schedule time %d (created by the cron controller, deleted before the JobConfig controller synced), but at quiescence status.lastScheduled=%d; after a restart of the cron controller that schedule time was requested again: %v (Job %s exists again: %v) || trace: %s",
+				w.label, t2, ls, again, j2, again, strings.Join(tail(w.trace, 40), " ; "))
 		}
 	})
 }
